@@ -22,6 +22,13 @@ type ignTmpl struct {
 
 var ignored []ignTmpl
 
+// specIgnored: sub-modes of the ASA that the tool does not model although the table of some tree may lack the `!` entry
+// (written specification, independent of /repo: `webvpn` is a sub-mode of group-policy AND of username attributes).
+var specIgnored = [][2]string{
+	{"group-policy $NAME attributes", "webvpn"},
+	{"username $NAME attributes", "webvpn"},
+}
+
 func addIgnored(parent, sub string) bool {
 	pw := strings.Fields(strings.ReplaceAll(parent, "$NAME", "N"))
 	mode := modeOf(pw)
@@ -42,6 +49,9 @@ func addIgnored(parent, sub string) bool {
 func loadIgnored(repo string) (dropped, added []string) {
 	ignored = nil
 	for _, e := range ignoredSnapshot {
+		addIgnored(e[0], e[1])
+	}
+	for _, e := range specIgnored {
 		addIgnored(e[0], e[1])
 	}
 	data, err := os.ReadFile(filepath.Join(repo, "go/pkg/asa/cmd-info.go"))
